@@ -365,7 +365,13 @@ func runStatic(data json.RawMessage) vh.Verdict {
 			// the features whose lazily built parts take long to fill (a relation of 400 members, a path of 400
 			// points): many goroutines ask for them at the same moment on a world nobody has read yet, many times
 			var want string
-			if p := vh.Catch(func() { want = hotRead(w) }); p != "" {
+			hotAreas = nil
+			for _, n := range c.IDs {
+				if strings.HasPrefix(n, "A") {
+					hotAreas = append(hotAreas, n)
+				}
+			}
+			if p := vh.Catch(func() { want = hotRead(w, false) }); p != "" {
 				cm.add(-1, "concurrent", "hot:panic-alone", p)
 			} else {
 				var mu sync.Mutex
@@ -380,11 +386,11 @@ func runStatic(data json.RawMessage) vh.Verdict {
 						var hw sync.WaitGroup
 						for g := 0; g < 8; g++ {
 							hw.Add(1)
-							go func() {
+							go func(flip bool) {
 								defer hw.Done()
 								<-start
 								var got string
-								p := vh.Catch(func() { got = hotRead(cw) })
+								p := vh.Catch(func() { got = hotRead(cw, flip) })
 								mu.Lock()
 								if p != "" && bad == "" {
 									bad = "panic: " + p
@@ -392,7 +398,7 @@ func runStatic(data json.RawMessage) vh.Verdict {
 									bad = "read " + trimTo(got, 300) + " instead of " + trimTo(want, 300)
 								}
 								mu.Unlock()
-							}()
+							}(g%2 == 1)
 						}
 						close(start)
 						hw.Wait()
@@ -838,9 +844,55 @@ func withHotFeatures(src obs.AWorld) obs.AWorld {
 	return out
 }
 
-// hotRead reads every member of R99 and every point of W99.
-func hotRead(w b6.World) string {
+// hotAreas: the areas of the case that hotRead reads.
+var hotAreas []string
+
+// hotArea reads the paths and the polygons of an area, in either order (both fill parts of the same cached object).
+func hotArea(w b6.World, n string, flip bool) string {
+	a := b6.FindAreaByID(obs.ID(n).ToAreaID(), w)
+	if a == nil {
+		return n + " missing"
+	}
+	var paths, polys strings.Builder
+	readPaths := func() {
+		for i := 0; i < a.Len(); i++ {
+			for _, p := range a.Feature(i) {
+				paths.WriteString(obs.Name(p.FeatureID()))
+				paths.WriteByte(' ')
+			}
+			paths.WriteByte(';')
+		}
+	}
+	readPolys := func() {
+		for i := 0; i < a.Len(); i++ {
+			if poly := a.Polygon(i); poly != nil {
+				for _, l := range poly.Loops() {
+					polys.WriteString(strconv.Itoa(l.NumVertices()))
+					polys.WriteByte(' ')
+				}
+			} else {
+				polys.WriteString("nil")
+			}
+			polys.WriteByte(';')
+		}
+	}
+	if flip {
+		readPolys()
+		readPaths()
+	} else {
+		readPaths()
+		readPolys()
+	}
+	return n + "=" + paths.String() + "/" + polys.String()
+}
+
+// hotRead reads every member of R99, every point of W99 and the paths and polygons of every area.
+func hotRead(w b6.World, flip bool) string {
 	var b strings.Builder
+	for _, n := range hotAreas {
+		b.WriteString(hotArea(w, n, flip))
+		b.WriteByte('|')
+	}
 	if f := w.FindFeatureByID(obs.ID("R99")); f != nil {
 		if r, ok := f.(b6.RelationFeature); ok {
 			for i := 0; i < r.Len(); i++ {
